@@ -126,7 +126,12 @@ CookieMatches(val, c) ==
                       ELSE <<LowerSeq(Trim(SubSeq(seg, 1, q - 1))), Trim(SubSeq(seg, q + 1, Len(seg)))>>
         P == [i \in 1..(Len(segs) - 1) |-> av(segs[i + 1])]      \* attributes found (order is not significant)
     IN /\ Len(P) = Len(c.attrs) + Len(c.flags)
-       /\ \E one \in BOOLEAN : Trim(segs[1]) = Trim(SemiToSpace(UnsafeToSpace(c.k \o <<EQUALS>> \o c.v, 1, one)))
+       \* the cookie-pair: key "=" value, white space around either part being insignificant (RFC 6265 5.2 step 4)
+       /\ \E one \in BOOLEAN :
+             LET kk == SemiToSpace(UnsafeToSpace(c.k, 1, one))
+                 vv == SemiToSpace(UnsafeToSpace(c.v, 1, one))
+             IN Trim(segs[1]) \in {Trim(kk \o <<EQUALS>> \o vv), Trim(kk) \o <<EQUALS>> \o Trim(vv),
+                                   Trim(Trim(kk) \o <<EQUALS>> \o vv), Trim(kk \o <<EQUALS>> \o Trim(vv))}
        /\ \A i \in 1..Len(c.attrs) :
              Cardinality({j \in 1..Len(P) : Len(P[j]) = 2 /\ P[j][1] = c.attrs[i][1] /\ P[j][2] \in CookieAlts(c.attrs[i][2])}) = 1
        /\ \A i \in 1..Len(c.flags) : Cardinality({j \in 1..Len(P) : P[j] = <<c.flags[i]>>}) = 1
